@@ -33,8 +33,8 @@ TRUSTED_BASE = [
     "harness/session.py fingerprint: attribute-wise structural dump of Table, Cache, AstNode, ColExpr, source frames and "
     "SQLite table contents (memo fields _dtype / _ftype of derived expressions excluded: their effect is checked through results)",
     "harness/translate.py gen_cacheupdate: statement classification of Cache.update (fail-closed)",
-    "harness/translate.py gen_verbeffects: Python function -> Model/HeapProg.v program (fail-closed); calls are not followed: "
-    "a call of a function translated in the same run is taken to satisfy its own theorem, TRUSTED_FUNCS / TRUSTED_METHODS "
+    "harness/translate.py gen_verbeffects: Python function -> Model/HeapProg.v program (fail-closed); a call of a function "
+    "translated in the same run is a call in the model (which functions a call may enter is decided by name), TRUSTED_FUNCS / TRUSTED_METHODS "
     "(tree constructors, argument checkers, readers, the data-model hooks of Table / ColExpr) are taken to be write-free, "
     "builtin container mutators to write their receiver only, callback parameters of the map_* methods to be write-free; "
     "syntactic return-shape checks (every @modify_ast verb returns its own copy.copy(table); check_subquery returns its "
@@ -375,7 +375,7 @@ def run(ctx, res):
     cov["sessions"] = dict(stats)
     cov["probe_failures_by_kind"] = dict(probe_failures)
     cov["probe_kinds"] = dict(collections.Counter(p.get("kind", "?") for c in cases for p in c.get("late_pipes", [])))
-    cov["partial"] = ["the frame theorems cover Cache.update, preprocess_arg, the verb front ends, check_subquery and the "
-                      "tree-rewriting methods (calls not followed: verified-in-the-same-run or trusted names); the clones made by "
-                      "export / build_query and the backend compilers are not translated: their immutability is decided by the "
-                      "session runs (fingerprints, A vs B)"]
+    cov["partial"] = ["the frame theorems cover Cache.update, preprocess_arg, the verb front ends, check_subquery, the "
+                      "tree-rewriting and cloning methods and the calls among them; callees outside that table are trusted by name; "
+                      "the backend compilers are not translated: their immutability is decided by the session runs "
+                      "(fingerprints, A vs B)"]
